@@ -22,6 +22,8 @@ type WorldSpec struct {
 	Now   int64           `json:"now"`
 	Args  []string        `json:"args,omitempty"`
 	Files map[string]BStr `json:"files,omitempty"`
+	// StreamFiles: the files are not regular files (pipes, devices): Stat reports size 0
+	StreamFiles bool `json:"stream_files,omitempty"`
 }
 
 type Op struct {
@@ -92,6 +94,15 @@ type Scenario struct {
 	C09    *C09Payload       `json:"c09,omitempty"`
 	C04    *C04Payload       `json:"c04,omitempty"`
 	C05    *C05Payload       `json:"c05,omitempty"`
+	// CfgIni: the callback of the option whose field is FLoadConfig (a "--config
+	// FILE" option) reads this INI text as defaults into the parser, while
+	// ParseArgs is still at work.
+	CfgIni *BStr `json:"cfg_ini,omitempty"`
+
+	// ReenterArgv: a CompletionHandler of a re-entering program (Decl.Reenter) hands
+	// this command line to ParseArgs from inside the handler (GO_FLAGS_COMPLETION
+	// is still set then).
+	ReenterArgv []BStr `json:"reenter_argv,omitempty"`
 
 	// argvShare (not part of a replay file; set by a twin evaluation): the argument
 	// slices handed to ParseArgs are built once per operation and handed out again
@@ -146,6 +157,7 @@ type OpResult struct {
 
 type Outcome struct {
 	DeclErr         string          `json:"decl_err,omitempty"`
+	DeclHang        bool            `json:"decl_hang,omitempty"` // declaring the options (NewParser / AddGroup / AddCommand) did not return
 	Ops             []OpResult      `json:"ops"`
 	Completions     []BStr          `json:"completions,omitempty"`
 	CompletionCalls int             `json:"completion_calls,omitempty"`
@@ -182,6 +194,7 @@ type heldSlice struct {
 type RunCtx struct {
 	inIniRead bool
 	reentered int
+	compDepth int
 	held      []heldSlice
 	bytesSeen int64 // bytes of input the boot has taken in so far (argv, INI text, stored values)
 	b         *Built
@@ -283,6 +296,16 @@ func (c *RunCtx) callee(kind, who string, args []string) error {
 	}
 	if simrt.W != nil {
 		simrt.W.Event("callee %s %s fail=%d", kind, who, call.Fail)
+	}
+	if kind == "callback" && c.sc.CfgIni != nil && strings.Contains(who, "|FLoadConfig(") && c.b != nil && c.b.P != nil && err == nil {
+		// a --config option: the file is read as defaults right here
+		if c.b.KeptIni == nil {
+			c.b.KeptIni = flags.NewIniParser(c.b.P)
+		}
+		c.b.KeptIni.ParseAsDefaults = true
+		if e := c.b.KeptIni.Parse(&simrt.Reader{Data: []byte(*c.sc.CfgIni)}); e != nil {
+			err = e
+		}
 	}
 	// programs commonly call back into the parser from a command or callback
 	// (print the help, look up an option)
@@ -400,7 +423,7 @@ func Execute(sc *Scenario, sched *simrt.Schedule) (out *Outcome) {
 		w.Args = sc.World.Args
 	}
 	for n, d := range sc.World.Files {
-		w.Disk.Nodes[n] = &simrt.Node{Data: []byte(d), IsDir: strings.HasSuffix(n, "/")}
+		w.Disk.Nodes[n] = &simrt.Node{Data: []byte(d), IsDir: strings.HasSuffix(n, "/"), Stream: sc.World.StreamFiles}
 	}
 	if sched != nil {
 		s := *sched
@@ -409,7 +432,24 @@ func Execute(sc *Scenario, sched *simrt.Schedule) (out *Outcome) {
 	}
 	simrt.Install(w)
 
-	b := Build(sc.Decl)
+	// declaring the options is library code too: it runs under a step budget
+	w.Ticks, w.TickBudget = 0, 3000000
+	w.WallDeadline = time.Now().Add(8 * time.Second).UnixNano()
+	b := func() (b *Built) {
+		defer func() {
+			if r := recover(); r != nil {
+				switch r.(type) {
+				case simrt.BudgetPanic, simrt.HangPanic:
+					out.DeclHang = true
+					b = &Built{Spec: sc.Decl, ByPath: map[string]*BuiltOpt{}, Err: fmt.Errorf("declaring the options did not return (step budget exhausted)")}
+				default:
+					panic(r)
+				}
+			}
+		}()
+		return Build(sc.Decl)
+	}()
+	w.Ticks, w.TickBudget = 0, 1<<40
 	ctx.b = b
 	// keep the last few hundred declarations reachable, as several live parsers in
 	// one program would be: a fresh one then cannot sit at the address of the last
@@ -718,7 +758,7 @@ func runOp(w *simrt.World, b *Built, op *Op, res *OpResult) {
 		} else {
 			if op.Rewrite {
 				// the file has been rewritten since it was last looked at
-				w.Disk.Nodes[op.File] = &simrt.Node{Data: []byte(op.Data)}
+				w.Disk.Nodes[op.File] = &simrt.Node{Data: []byte(op.Data), Stream: cur.sc.World.StreamFiles}
 			}
 			if op.OpenErr != "" {
 				w.Disk.OpenErr[op.File] = op.OpenErr
@@ -759,7 +799,8 @@ func runOp(w *simrt.World, b *Built, op *Op, res *OpResult) {
 			if op.OpenErr != "" {
 				// the file cannot be created (nor any other file next to it)
 				w.Disk.OpenErr[op.File] = op.OpenErr
-				if dir != "" {
+				if dir != "" && op.OpenErr != "EISDIR" {
+					// (a name taken by a directory leaves its neighbours alone)
 					w.Disk.OpenErr[dir] = op.OpenErr
 				}
 			}
